@@ -2,6 +2,7 @@ package verifworld
 
 import (
 	"fmt"
+	"strings"
 
 	"pgregory.net/rapid"
 )
@@ -101,11 +102,15 @@ func GenPools(rt *rapid.T, o ClusterOpts) []PoolSpec {
 		pools = append(pools, p)
 	}
 	if o.Overlap && len(pools) > 1 && rapid.IntRange(0, 14).Draw(rt, "overlap") == 0 {
-		cover := rapid.SampledFrom([]string{"10.0.0.0/24", "10.0.0.0/22", "10.0.0.1-10.0.2.255", "fc00::/120", "fc00::/112"}).Draw(rt, "cover")
+		cover := rapid.SampledFrom([]string{"10.0.0.0/24", "10.0.0.0/22", "10.0.0.1-10.0.2.255", "fc00::/120", "fc00::/112", "twin", "twin"}).Draw(rt, "cover")
 		if o.NativeBGP {
 			cover = "10.0.0.0/22"
 		}
 		j := rapid.IntRange(0, len(pools)-1).Draw(rt, "coverPool")
+		if cover == "twin" {
+			// exactly the block of another pool, written in the other notation (CIDR <-> first-last)
+			cover = twinSpelling(pools[(j+1)%len(pools)].Addresses[0])
+		}
 		if rapid.Bool().Draw(rt, "coverFirst") {
 			pools[j].Addresses = append([]string{cover}, pools[j].Addresses...)
 		} else {
@@ -113,6 +118,23 @@ func GenPools(rt *rapid.T, o ClusterOpts) []PoolSpec {
 		}
 	}
 	return pools
+}
+
+// twinSpelling spells the addresses of one pool entry in the other notation.
+func twinSpelling(spec string) string {
+	iv, k, _ := ParseAddrSpec(spec)
+	if k == AddrBad || k == AddrExotic {
+		return spec
+	}
+	if strings.Contains(spec, "/") {
+		return fmt.Sprintf("%s-%s", iv.Lo, iv.Hi)
+	}
+	for _, a := range TinyAtoms(true) {
+		if a.CIDR != "" && a.Lo == iv.Lo.String() && a.Hi == iv.Hi.String() {
+			return a.CIDR
+		}
+	}
+	return spec
 }
 
 func pickNs(rt *rapid.T, n int) []string {
@@ -187,8 +209,11 @@ func GenPeers(rt *rapid.T, max int, native bool) []PeerSpec {
 		if rapid.IntRange(0, 1).Draw(rt, "peerselK") == 0 {
 			p.NodeSel = GenSels(rt, "peernodesel", 2)
 		}
-		if rapid.IntRange(0, 3).Draw(rt, "holdK") == 0 {
+		switch rapid.IntRange(0, 3).Draw(rt, "holdK") {
+		case 0:
 			p.HoldSec = rapid.SampledFrom([]int{3, 30, 90}).Draw(rt, "hold")
+		case 1:
+			p.Secret = "pw-" + p.Name // password kept in a Secret (a same-named decoy lives in another namespace)
 		}
 		out = append(out, p)
 	}
